@@ -220,6 +220,43 @@ func (b *bufferComp) Impl(c Case) (out []string) {
 				r.buf.Accept(base.LogChunk{ID: bufChunkID(int(o.Ints[5])), Data: append([]byte{}, o.Bytes[0]...)})
 			}
 			out = append(out, r.state(waitFeeder("idle", "blocked"), ""))
+		case "buf plant":
+			// a large backlog found at the next start: files created in shuffled order
+			n := int(o.Ints[0])
+			dir := filepath.Join(root, "q")
+			os.MkdirAll(dir, 0o755)
+			prng := rand.New(rand.NewSource(o.Ints[1]))
+			for _, i := range prng.Perm(n) {
+				os.WriteFile(filepath.Join(dir, bufChunkID(100000+i)), []byte{byte(i%251 + 1)}, 0o644)
+			}
+			out = append(out, fmt.Sprintf("planted=%d", n))
+		case "buf drain":
+			// the consumer takes and confirms everything that is offered, recording the order
+			prev, got, bad := -1, 0, ""
+			for {
+				st := waitFeeder("idle", "blocked", "waiting", "gone", "saving")
+				if len(r.args.InputChannel) == 0 {
+					if st != "blocked" {
+						break
+					}
+					continue
+				}
+				ch, ok := <-r.args.InputChannel
+				if !ok {
+					break
+				}
+				id := bufNum(ch.ID)
+				if id < prev && bad == "" {
+					bad = fmt.Sprintf("%d-after-%d", id, prev)
+				}
+				prev = id
+				got++
+				r.args.OnChunkConsumed(ch)
+			}
+			if bad == "" {
+				bad = "ok"
+			}
+			out = append(out, fmt.Sprintf("drained=%d order=%s", got, bad))
 		case "buf accept":
 			r.buf.Accept(base.LogChunk{ID: bufChunkID(int(o.Ints[0])), Data: append([]byte{}, o.Bytes[0]...)})
 			out = append(out, r.state(waitFeeder("idle", "blocked"), ""))
@@ -357,7 +394,16 @@ func (b *bufferComp) Oracle(c Case, impl []string) string {
 		if strings.HasPrefix(line, "panic") {
 			return "the buffer panicked: " + line
 		}
-		if line == "not-enabled" || line == "bad-op" {
+		if line == "not-enabled" || line == "bad-op" || strings.HasPrefix(line, "planted=") {
+			continue
+		}
+		if strings.HasPrefix(line, "drained=") {
+			if !strings.HasSuffix(line, "order=ok") {
+				return "[key=buffer-recovery-order] recovered chunks were offered out of creation order: " + line
+			}
+			for _, id := range order {
+				confirmed[id] = true // the drain confirmed everything it was offered
+			}
 			continue
 		}
 		if strings.Contains(line, "FEEDER-timeout") {
@@ -543,6 +589,9 @@ func (b *bufferComp) Class(c Case, impl []string) string {
 }
 
 func (b *bufferComp) Generate(rng *rand.Rand, n int, emit func(Case)) {
+	// a backlog larger than any batch size a directory scan might use
+	emit(Case{Ops: []Op{{Name: "bufr plant", Ints: []int64{2600, rng.Int63()}}, {Name: "bufr new", Ints: []int64{8, 5000, 1 << 30, 1, 0}},
+		{Name: "bufr drain"}, {Name: "bufr destroy"}, {Name: "bufr finish"}}, Tag: "backlog"})
 	for i := 0; i < n; i++ {
 		var ops []Op
 		nextID := 1 + rng.Intn(3)
